@@ -54,6 +54,19 @@ MUTANTS = [
      "    if trace is None:\n        return abs(amplitude) * mask.to(dtype=observation.dtype)\n    else:\n        return torch.where(mask, amplitude, decay * trace)"),
     ("trace_cum_scaled_decays_new", "C07", 3000, "inferno/core/trace.py",
      "        return (decay * trace) + (scale * observation + amplitude) * mask", "        return decay * (trace + (scale * observation + amplitude) * mask)"),
+    ("nrn_refrac_no_clamp", "C03", 2000, "inferno/neural/functional/neuron_dynamics.py",
+     "    refracs = (refracs - step_time).clamp(min=0)\n    mask = refracs == 0\n\n    # compute updated voltages\n    if voltages is None:\n        voltages = dynamics(inputs * mask)\n    else:\n        voltages = voltages.where(~mask, dynamics(inputs * mask))\n\n    # determine which neurons have spiked\n    spikes = torch.logical_and(mask, voltages >= thresh_v)\n\n    # set refractory period and voltages of fired neurons to their reset state\n    refracs = refracs.where(~spikes, refrac_t)\n    voltages = voltages.where(~spikes, reset_v)",
+     "    refracs = (refracs - step_time)\n    mask = refracs <= 0\n\n    # compute updated voltages\n    if voltages is None:\n        voltages = dynamics(inputs * mask)\n    else:\n        voltages = voltages.where(~mask, dynamics(inputs * mask))\n\n    # determine which neurons have spiked\n    spikes = torch.logical_and(mask, voltages >= thresh_v)\n\n    # set refractory period and voltages of fired neurons to their reset state\n    refracs = refracs.where(~spikes, refrac_t)\n    voltages = voltages.where(~spikes, reset_v)"),
+    ("nrn_thresh_strict", "C03", 2000, "inferno/neural/functional/neuron_dynamics.py",
+     "    spikes = torch.logical_and(mask, voltages >= thresh_v)\n\n    # set refractory period and voltages of fired neurons to their reset state\n    refracs = refracs.where(~spikes, refrac_t)\n    voltages = voltages.where(\n",
+     "    spikes = torch.logical_and(mask, voltages > thresh_v + 0.02)\n\n    # set refractory period and voltages of fired neurons to their reset state\n    refracs = refracs.where(~spikes, refrac_t)\n    voltages = voltages.where(\n"),
+    ("nrn_mask_uses_old_refrac", "C03", 2000, "inferno/neural/functional/neuron_dynamics.py",
+     "    refracs = (refracs - step_time).clamp(min=0)\n    mask = refracs == 0\n\n    # compute updated voltages\n    if voltages is None:\n        voltages = dynamics(inputs * mask)\n    else:\n        voltages = voltages.where(~mask, dynamics(inputs * mask))\n\n    # determine which neurons have spiked\n    spikes = torch.logical_and(mask, voltages >= thresh_v)\n\n    # set refractory period and voltages of fired neurons to their reset state\n    refracs = refracs.where(~spikes, refrac_t)\n    voltages = voltages.where(\n",
+     "    mask = refracs <= step_time * 1.5\n    refracs = (refracs - step_time).clamp(min=0)\n\n    # compute updated voltages\n    if voltages is None:\n        voltages = dynamics(inputs * mask)\n    else:\n        voltages = voltages.where(~mask, dynamics(inputs * mask))\n\n    # determine which neurons have spiked\n    spikes = torch.logical_and(mask, voltages >= thresh_v)\n\n    # set refractory period and voltages of fired neurons to their reset state\n    refracs = refracs.where(~spikes, refrac_t)\n    voltages = voltages.where(\n"),
+    ("nrn_qif_input_unscaled", "C03", 2000, "inferno/neural/functional/neuron_dynamics.py",
+     "    return voltages + decay * (dyn_v + (resistance * masked_inputs))", "    return voltages + decay * dyn_v + (resistance * masked_inputs) * min(decay, 1.0)"),
+    ("nrn_alif_threshold_first_only", "C03", 2000, "inferno/neural/functional/neuron_adaptation.py",
+     "    return threshold + torch.sum(adaptations, dim=-1)", "    return threshold + adaptations[..., 0]"),
     ("resize_keeps_head", "C13", 3000, INFRA,
      "            slices[dim] = slice(tensor.shape[dim] - size, None)\n            return tensor[*slices]", "            slices[dim] = slice(None, size)\n            return tensor[*slices]"),
     ("resize_no_align", "C13", 3000, INFRA,
